@@ -5,6 +5,7 @@
 package c03
 
 import (
+	"strings"
 	"encoding/json"
 	"crypto/tls"
 	"fmt"
@@ -308,7 +309,7 @@ func runSession(c *fw.Ctx, w *world, canary *oracle.Canary, s *Session) {
 		c.Inconclusive("dial: " + err.Error())
 		return
 	}
-	rec := hmods.Track("tcp:" + raw.LocalAddr().String())
+	rec := hmods.Track(hmods.RealConnID(raw.LocalAddr().String(), raw.RemoteAddr().String()))
 	defer rec.Release()
 	var conn net.Conn = raw
 	if s.DownTLS {
@@ -366,6 +367,16 @@ func runSession(c *fw.Ctx, w *world, canary *oracle.Canary, s *Session) {
 			reached = true
 		}
 	}
+	for _, e := range rec.Events() {
+		if e.Kind == "exit" && e.Who == "span" && strings.Contains(e.S, "dial ") {
+			// the proxy could not even connect to an upstream (seen: "connect: connection reset by peer" from the
+			// kernel while another peer of the same session was being reset): nothing was relayed, nothing to judge
+			c.Inconclusive("upstream dial failed: " + e.S[:min(len(e.S), 60)])
+			c.Case(fw.Hash("dialfail", s.Order), false, nil)
+			_ = conn.Close()
+			return
+		}
+	}
 	if !returned && !graceful && !reached && rec.Count("enter", "span") == 0 {
 		// the connection was torn down before the proxy handler was reached: nothing to judge
 		c.Inconclusive("abrupt close before the proxy handler started")
@@ -373,13 +384,14 @@ func runSession(c *fw.Ctx, w *world, canary *oracle.Canary, s *Session) {
 		return
 	}
 	if !returned && os.Getenv("VERIF_C03_DEBUG") != "" {
-		fmt.Printf("DEBUG not returned: events=%+v upstream conns=%d tracked id=%s\n", rec.Events(), len(ups[0].up.Conns()), "tcp:"+raw.LocalAddr().String())
+		fmt.Printf("DEBUG not returned: events=%+v upstream conns=%d tracked id=%s\n", rec.Events(), len(ups[0].up.Conns()), hmods.RealConnID(raw.LocalAddr().String(), raw.RemoteAddr().String()))
 	}
 	if !returned {
 		if canary.MaxOversleep() > 5*time.Second {
 			c.Inconclusive("noisy scheduler")
 		} else {
-			report("handler-never-returned", "the proxy handler did not return within 60 s after both sides had finished", nil)
+			n, stack := oracle.GoroutinesIn("l4proxy.(*Handler)")
+			report("handler-never-returned", "the proxy handler did not return within 60 s after both sides had finished", map[string]any{"goroutines_in_l4proxy": n, "first_stack": stack, "events": rec.Events(), "tracked_id": rec.ID, "t": vnet.Now().String()})
 		}
 	}
 	for pi, us := range ups {
